@@ -99,6 +99,15 @@ class RateTableAdapter:
                         got = 'direction %s->%s' % (r.unit_currency, r.term_currency)
             except Exception as exc:
                 got = 'raises %s' % type(exc).__name__
+            if isinstance(got, Fraction) and want is not None and got != want:
+                # the exact rate has more than six decimals: the reported rate is its C09 normal form (unit
+                # multiple the smallest power of ten that lifts the term amount to >= 0.1, six decimals, half-even)
+                k = 0
+                while want * 10 ** k < Fraction(1, 10):
+                    k += 1
+                stored = Fraction(round(want * 10 ** k, 6)) / 10 ** k
+                if got == stored and stored != want:
+                    want = stored
             if got != want:
                 bad += 1
                 if bad <= 3:
